@@ -2,7 +2,7 @@
    regular expression that denotes exactly the value. *)
 From Coq Require Import List Bool Arith NArith Lia.
 From Coq.Strings Require Import Byte.
-From GI Require Import Lib.Bytes Gen.TsParseConsts TsParse.TsParse TsParse.TsParseFacts.
+From GI Require Import Lib.Bytes Gen.TsParseConsts TsParse.TsParse TsParse.TsSpec TsParse.TsParseFacts.
 Import ListNotations.
 Local Notation bytes := (list byte) (only parsing).
 
